@@ -225,7 +225,7 @@ def _shared_ast(state, base_text, tail):
     return Sub().visit(parse_query(tail))
 
 
-def _do_translate(state, backend, text, executor, bad_outdir, xmd, apply_only=False, shared=None):
+def _do_translate(state, backend, text, executor, bad_outdir, xmd, apply_only=False, shared=None, write_twice=False):
     import dataclasses
     import logging
     from pathlib import Path
@@ -262,6 +262,12 @@ def _do_translate(state, backend, text, executor, bad_outdir, xmd, apply_only=Fa
             # the caller only wanted the transformed query (to hash it, say) and never writes a package for it
             return {"ok": True, "files": {}, "tree": None, "file": None, "warnings": [], "xmd": [], "registered": registered, "apply_only": True}
         info = exe.write_cpp_files(a, Path(target))
+        if write_twice:
+            # the caller writes the package of the same transformed query once more (into another directory, say): that second package is looked at
+            target = os.path.join(out, "again")
+            os.makedirs(target)
+            msgs.clear()  # (what the first write logged is the first write's)
+            info = exe.write_cpp_files(a, Path(target))
         files = {fn: open(os.path.join(target, fn)).read() for fn in info.all_filenames}
         found = [getattr(x, "image", None) for x in exe.extended_md("vf_docker")]
         return {"ok": True, "files": files, "tree": getattr(info.result_rep, "treename", None), "file": getattr(info.result_rep, "filename", None),
@@ -280,7 +286,7 @@ def child_loop(rfd, wfd):
         if msg is None or msg.get("cmd") == "quit":
             os._exit(0)
         try:
-            res = _do_translate(state, msg["backend"], msg["text"], msg.get("executor", "new"), msg.get("bad_outdir", False), msg.get("xmd", False), msg.get("apply_only", False), msg.get("shared"))
+            res = _do_translate(state, msg["backend"], msg["text"], msg.get("executor", "new"), msg.get("bad_outdir", False), msg.get("xmd", False), msg.get("apply_only", False), msg.get("shared"), msg.get("write_twice", False))
         except BaseException:
             res = {"ok": False, "exc": "HARNESS", "msg": traceback.format_exc()[-400:]}
         _send(wfd, res)
@@ -437,6 +443,30 @@ class History(RuleBasedStateMachine):
             raise Violation(key, f"query {tail!r} over a base stream object used {earlier} time(s) before in this process, on {backend}: {d}",
                             {"history": hist, "probe": {"backend": backend, "text": text, "executor": executor, "xmd": False, "shared": [base_text, tail]}})
 
+    @rule(probe=st.sampled_from([p_ for p_ in PROBES if "MetaData" not in p_[1]]), executor=st.sampled_from(["new", "same"]))
+    def write_again(self, probe, executor):
+        """one transformed query written twice in a row (a retry, a second output directory); the SECOND package is compared with the pristine one.
+        Only queries without metadata: what a query declares lives in the executor / the global tables until the first write and is gone for the
+        second one - apply and write are a pair (not claimed, see DESIGN 6.2)."""
+        backend, text = probe
+        got = self.child.call({"backend": backend, "text": text, "executor": executor, "write_twice": True})
+        if got.get("exc") == "HARNESS":
+            raise RuntimeError("harness failure in child: " + got["msg"])
+        base = baseline(backend, text, got.get("registered", False))
+        stats: Stats = _current["stats"]
+        stats.case(jdump([self.steps, "write-again", text, executor]), True, [f"history_len={len(self.steps)}", "second-write-of-one-transformed-query", "backend=" + backend],
+                   {"history": [s["label"] + "@" + s["executor"] for s in self.steps], "probe": "written twice: " + text[-100:], "probe_backend": backend})
+        d = compare(base, got)
+        self.steps.append({"label": "written-twice", "backend": backend, "text": text, "executor": executor, "bad_outdir": False, "xmd": False, "declares": False,
+                           "failed": not got["ok"], "write_twice": True})
+        if d:
+            sup = _current.get("suppressed", {})
+            if "second-write" in sup:
+                sup["second-write"] += 1
+                return
+            raise Violation("second-write", f"the second write of one transformed query ({text[-80:]!r}, {backend}) gives another package than the first: {d}",
+                            {"history": self.steps[:-1], "probe": {"backend": backend, "text": text, "executor": executor, "xmd": False, "write_twice": True}})
+
     @precondition(lambda self: len(self.steps) >= 1)
     @rule(probe=st.sampled_from(PROBES), executor=st.sampled_from(["new", "same"]), related=st.integers(0, 1999))
     def probe(self, probe, executor, related):
@@ -536,9 +566,9 @@ def replay(case):
     try:
         for s in case["history"]:
             c.call({"backend": s["backend"], "text": s["text"], "executor": s["executor"], "bad_outdir": s.get("bad_outdir", False), "xmd": s.get("xmd", False),
-                    "apply_only": s.get("apply_only", False), "shared": s.get("shared")})
+                    "apply_only": s.get("apply_only", False), "shared": s.get("shared"), "write_twice": s.get("write_twice", False)})
         p = case["probe"]
-        got = c.call({"backend": p["backend"], "text": p["text"], "executor": p["executor"], "xmd": p.get("xmd", False), "shared": p.get("shared")})
+        got = c.call({"backend": p["backend"], "text": p["text"], "executor": p["executor"], "xmd": p.get("xmd", False), "shared": p.get("shared"), "write_twice": p.get("write_twice", False)})
     finally:
         c.close()
     base = baseline(p["backend"], p["text"], got.get("registered", p.get("xmd", False)))
